@@ -576,6 +576,41 @@ def run_change(ctx):
                     lib.clear_caches()
 
 
+# ---------------------------------------------------------------- formula members
+MEMBER_POOL = (('=COUNT(K1:K3)', 2), ('=COUNTA(K1:K3)', 3),
+               ('=AVERAGE(K5:K6)', 0), ('=1+1', 2), ('=MAX(K1:K2)', 7),
+               ('=K1*2', 14))
+
+
+def run_members(ctx):
+    """The cells of the range are themselves formulas - counts among them,
+    whose functions hand back plain Python integers."""
+    helpers = {'Sheet1!K1': 7, 'Sheet1!K2': 3, 'Sheet1!K3': 'x'}
+    for (nr, nc) in ((1, 3), (3, 1), (2, 2)):
+        r = render_piece(('r', 0, 0, nr - 1, nc - 1), force_range=True)
+        for combo in itertools.product(range(len(MEMBER_POOL)),
+                                       repeat=nr * nc):
+            cells = dict(helpers)
+            vals = []
+            for k, ci in enumerate(combo):
+                f, v = MEMBER_POOL[ci]
+                cells['Sheet1!' + addr(k // nc, k % nc)] = f
+                vals.append(v)
+            g = tuple(tuple(vals[i * nc:(i + 1) * nc]) for i in range(nr))
+            obs = run_model(cells, ['=%s(%s)' % (fn, r) for fn in FNS])
+            key0 = 'C14/members/%dx%d/%s' % (nr, nc, ''.join(map(str, combo)))
+            inputs = {'family': 'members', 'shape': [nr, nc],
+                      'combo': list(combo)}
+            for fn, got in zip(FNS, obs):
+                want = ref.aggregate(fn, [('range', g)])
+                if agrees(fn, want, got):
+                    ctx.ok('%s/%s' % (key0, fn), got, True)
+                else:
+                    ctx.fail('%s/%s' % (key0, fn),
+                             ['family:formula-members', 'fn:' + fn], inputs,
+                             obs_of(want), got, True)
+
+
 SMALL = ((1, 1), (1, 2), (2, 1), (1, 3), (3, 1), (2, 2))
 SIX = ((2, 3), (3, 2))
 SP_SHAPES_Q = ((1, 1), (1, 2), (2, 1), (2, 2))
@@ -649,7 +684,7 @@ def ncells(kind, shapes):
 
 
 def plan(tier):
-    shards = [{'kind': 'change'}]
+    shards = [{'kind': 'change'}, {'kind': 'members'}]
     for kind, shapes, alpha, vset, chunk in families(tier):
         total = len(alpha) ** ncells(kind, shapes)
         for lo in range(0, total, chunk):
@@ -670,6 +705,12 @@ def fill_at(alpha, n, idx):
 
 def run_shard(shard, ctx):
     kind = shard['kind']
+    if kind == 'members':
+        run_members(ctx)
+        ctx.sample({'family': 'formula members',
+                    'cells': {'A1': '=COUNT(K1:K3)', 'B1': '=1+1',
+                              'Z1': '=SUM(A1:B1)'}})
+        return
     if kind == 'change':
         run_change(ctx)
         ctx.sample({'family': 'after-change',
@@ -705,6 +746,9 @@ def run_shard(shard, ctx):
 def replay(inputs, ctx):
     if inputs['family'] == 'change':
         run_change(ctx)
+        return
+    if inputs['family'] == 'members':
+        run_members(ctx)
         return
     if inputs['family'] == 'agg':
         nr, nc = inputs['shape']
